@@ -18,6 +18,7 @@ class Context(object):
         self._inv = None
         self._lm = None
         self.analysis_errors = []
+        self.established = set()  # lemmas (summaries of repo functions) discharged in this run
         r = self.report
         r.analysed["repo"] = self.program.root
         r.analysed["modules_parsed"] = len(self.program.modules)
@@ -29,13 +30,41 @@ class Context(object):
         (unsupported construct, vanished anchor) does not hide what the other
         steps find: it is recorded and re-raised at the end only when no
         violation was found."""
+        from .decorators import StaticViolation
         from .loader import AnalysisError
 
         try:
             return fn(*args, **kw)
+        except StaticViolation as e:
+            self.report.ob("%s.%s" % (self.pid, e.rule), e.construct, False, e.detail, e.where)
+            return None
         except AnalysisError as e:
             self.analysis_errors.append(str(e))
             return None
+
+    def discharge_lemmas(self):
+        """Kernels apply summaries of CircularRecord.__getitem__ (a slice is the
+        library's linear slice) and of << / >> (rotation) instead of inlining
+        them; whichever was used is proved in the same run."""
+        from .absint import SUMMARIES_USED
+
+        for name in sorted(SUMMARIES_USED - self.established):
+            if name == "getitem":
+                from .rules_flow import getitem_rule
+
+                # as a lemma only what the slice summary states: the sub-sequence, the linear type, what is carried
+                rule = "%s.lemma.getitem" % self.pid
+                self.report.skip.update({rule + ".no-circular-claim", rule + ".deepcopy"})
+                self.guard(getitem_rule, self, rule)
+            elif name == "add-guard":
+                from .rules_flow import add_guard_rule
+
+                self.guard(add_guard_rule, self, "%s.lemma.add-guard" % self.pid)
+            elif name == "shift":
+                from .kernels import k3_rshift
+
+                self.guard(k3_rshift, self, self.pid, which=("K3",))
+            self.established.add(name)
 
     @property
     def thorough(self) -> bool:
